@@ -246,12 +246,12 @@ fn gen_case(seed: u64, i: usize, rng: &mut Rng) -> (String, Vec<String>) {
         vec!["roa c +7:v4:7.0/24".into(), "bgpsec c +8".into(), "roa c +8:v6:8.0/48".into()],
         vec!["childres a b 3".into(), "childres a b 2,3".into()],
         vec!["republish force".into(), "rrdp".into(), "republish force".into()],
-        vec!["reposync a".into(), "reposync c".into(), "rrdp".into()],
+        vec!["reposyncreq a".into(), "reposyncreq c".into(), "rrdp".into()],
         vec!["rollinit c".into()],
         vec!["sync b a".into(), "sync c ta".into(), "sync a ta".into()],
         vec!["bgpsec a +6".into(), "bgpsec a -6".into(), "bgpsec a +6".into()],
         vec!["rrdp".into(), "rrdp".into(), "rrdp".into(), "rrdp".into(), "rrdp".into(), "rrdp".into()],
-        vec!["reposync a".into(), "rrdp".into(), "reposync b".into(), "rrdp".into(), "reposync c".into(), "rrdp".into()],
+        vec!["reposyncreq a".into(), "rrdp".into(), "reposyncreq b".into(), "rrdp".into(), "reposyncreq c".into(), "rrdp".into()],
     ];
     if rng.below(3) == 0 {
         // command histories (history cache on, as in the daemon's default configuration) while
